@@ -550,6 +550,7 @@ class Exec:
             return v   # pointer coercions: identity
         if s.startswith('(') and s.endswith(')') and not s.startswith('(*') :
             parts = split_top(s[1:-1])
+            if s.endswith(',)'): return Tuple([self.operand(fr, p) for p in split_top(s[1:-2])])      # 1-tuple
             if len(parts) >= 2 or s == '()': return Tuple([self.operand(fr, p) for p in parts]) if parts else UNIT
         if s.startswith('['):
             m2 = re.match(r'\[(.*); (\d+)\]$', s)
@@ -593,6 +594,7 @@ class Exec:
         if segs and segs[-1] in self.structs:
             return Struct(segs[-1], [self.operand(fr, a) for a in args])
         if segs and segs[-1] in ('Relaxed', 'SeqCst', 'Acquire', 'Release', 'AcqRel'): return Opaque('ordering')
+        if len(segs) >= 2 and segs[-2] == 'ErrorKind' and not args: return Enum('ErrorKind', segs[-1], [])     # std::io::ErrorKind unit variant (never switched on)
         raise Unknown('rvalue ' + s)
 
     def strip_impl(self, n):
@@ -678,9 +680,11 @@ class Exec:
                 f = self.resolve(self.callee_key(callee_txt))
                 if f is None:
                     # inherent impl generated by a macro (pin_project!): `_::<impl T<..>>::m` -> the dumped fn named `..::m` whose receiver is T
-                    mm = re.search(r'<impl (\w+)(<.*>)?>::(\w+)$', callee_txt)
+                    mm = re.search(r'<impl ((?:\w+::)*)(\w+)(<.*>)?>::(\w+)$', callee_txt)
                     if mm:
-                        c = [g for n, g in self.fns.items() if n.endswith('::' + mm.group(3)) and re.search(r'\b%s\b' % mm.group(1), g.types.get(1, ''))]
+                        c = [g for n, g in self.fns.items() if n.endswith('::' + mm.group(4)) and re.search(r'\b%s\b' % mm.group(2), g.types.get(1, ''))]
+                        if len(c) > 1 and mm.group(1):      # same type name in several modules: use the full path
+                            c = [g for g in c if (mm.group(1) + mm.group(2)) in g.types.get(1, '') or g.name.startswith(mm.group(1))]
                         if len(c) == 1: f = c[0]
                 if f is None: raise Unknown('unmodelled callee ' + callee_txt)
                 hit = ('f', f)
